@@ -310,7 +310,8 @@ class Outcome:
             "evaluations": self.evaluations,
             "distinct_nontrivial": len(self.nontrivial),
             "rule": self.rule,
-            "samples": self.samples[:5],
+            "samples": [x if len(json.dumps(x, default=str)) <= 6000 else
+                        {"truncated_sample": json.dumps(x, default=str)[:6000]} for x in self.samples[:3]],
             "input_distribution": self.dist,
             "correspondence_disagreements": len(self.corr_breaks),
             "monitor_hits": len(self.monitor_hits),
